@@ -22,7 +22,7 @@ import VM.Canon
     O <inst> peek <k> <sel>^k <na> <value>^na             like call, instance unchanged
     O <inst> fork <newinst>
     O <inst> seeded <k> <sel>^k <m> <cached>^m <na> <value>^na     restart of the run (sel,args) from a cache holding `cached`
-    O <inst> xcache <slot> <k> <sel>^k <m> <noncache>^m <na> <value>^na
+    O <inst> xcache <slot> <k> <sel>^k <m> <noncache>^m <na> <value>^na [C <slot'>]   (C: the executor also has from_cache = file <slot'>)
                                                            a fresh executor with cache_in = file <slot> (cache_deps_of targets
                                                            = noncache) called once (VM.xRun); the answer carries `F <keys>`:
                                                            the ids the model says the file holds (n, n+1 = the DAG's parameters)
@@ -218,14 +218,16 @@ def main : IO Unit := do
           match r1 with
           | m :: r2 =>
             let (nonc, r3) := takeNats m.toNat! r2
-            let args := match r3 with
-              | na :: r4 => (match pVal.pVals na.toNat! r4 with | some (l, _) => l | none => [])
-              | [] => []
+            let (args, rest) := match r3 with
+              | na :: r4 => (match pVal.pVals na.toNat! r4 with | some (l, r5) => (l, r5) | none => ([], []))
+              | [] => ([], [])
+            -- `C <slot'>`: the caching executor itself STARTS from file <slot'> (from_cache next to cache_in / cache_deps_of)
+            let from? : Option Nat := match rest with | ["C", s'] => s'.toNat? | _ => none
             let it := insts.getD inst.toNat! ⟨dag, res0⟩
-            let spec : XSpec := ⟨sel, fun x => nonc.contains x, some slot.toNat!, none⟩
+            let spec : XSpec := ⟨sel, fun x => nonc.contains x, some slot.toNat!, from?⟩
             let w : World Val := ⟨it, files⟩
             let r := xRun w (XObj.fresh spec) args
-            let c := xCfgOf it spec it.res args
+            let c := xCfgOf it spec ((xStart w spec).getD it.res) args
             let fk := match r.2.2, r.1.files slot.toNat! with
               | .ok _, some f => fileKeys n f
               | _, _ => ""
